@@ -13,6 +13,9 @@ Values: ('n', raw) | ('q', [vals]) | ('t', [vals]) | ('a', i, val) | ('z',)
 emits the declarations it needs; `cxx_value` builds the initialiser expression for a value."""
 import struct
 
+ADAPTER_NAMES = ('std::filesystem::path', 'std::filesystem::directory_entry', 'std::chrono::system_clock::time_point',
+                 'binlog::address', 'std::error_code')
+
 ARITH = {
     'y': (1, ['bool']), 'c': (1, ['char']), 'b': (1, ['std::int8_t', 'signed char']),
     's': (2, ['std::int16_t', 'short']), 'i': (4, ['std::int32_t', 'int']),
@@ -32,6 +35,8 @@ class Gen:
         self.decls = []       # C++ declarations at namespace scope (structs, enums, adaptations)
         self.counter = 0
         self.struct_rt = {}
+        self.struct_deser = {}
+        self.flavour = {}     # struct name -> ('getters', [is getter per field]) | ('derived', nbases) | ('template', base name, params)
         self.stats = {}
 
     def bump(self, k):
@@ -42,8 +47,27 @@ class Gen:
         return '%s%s%d' % (self.prefix, base, self.counter)
 
     # ---- random types ------------------------------------------------------------------
+    def rand_adapter(self):
+        """the types binlog adapts itself (adapt_std*.hpp, Address.hpp): their tags are structs of this universe"""
+        r = self.rng
+        k = r.randrange(6)
+        if k == 0:
+            return ('S', 'std::filesystem::path', [('str', ('Q', ('A', 'c')))])
+        if k == 1:
+            period = r.choice(['std::nano', 'std::micro', 'std::milli', 'std::ratio<1>', 'std::ratio<60>', 'std::ratio<3600>'])
+            return ('S', 'std::chrono::duration<Rep,%s>' % period, [('count', ('A', r.choice('ilsLId')))])
+        if k == 2:
+            return ('S', 'std::chrono::system_clock::time_point', [('ns', ('A', 'l'))])
+        if k == 3:
+            return ('S', 'binlog::address', [('value', ('A', 'L'))])
+        if k == 4:
+            return ('S', 'std::error_code', [('message', ('Q', ('A', 'c')))])
+        return ('S', 'std::filesystem::directory_entry', [('path', ('S', 'std::filesystem::path', [('str', ('Q', ('A', 'c')))]))])
+
     def rand_ty(self, depth=0, deser_only=False):
         r = self.rng
+        if not deser_only and r.random() < 0.07:
+            return self.rand_adapter()
         if depth >= 4 or r.random() < 0.3:
             k = r.random()
             if k < 0.8:
@@ -79,9 +103,27 @@ class Gen:
         return ('E', c, self.fresh('En'), ens)
 
     def rand_struct(self, depth):
+        """adapted structs: plain (fields), with getters, derived from adapted bases (the bases are unnamed leading fields of
+        the tag), class templates (the tag keeps the template's parameter names)"""
         r = self.rng
         n = r.choice([0, 1, 2, 3, 4])
-        return ('S', self.fresh('St'), [('f%d' % i, self.rand_ty(depth + 1, True)) for i in range(n)])
+        flavour = r.choice(['plain', 'plain', 'getters', 'derived', 'template'])
+        fields = [('f%d' % i, self.rand_ty(depth + 1, True)) for i in range(n)]
+        name = self.fresh('St')
+        if flavour == 'getters' and n > 0:
+            fields = [('g' + fn[1:] if i % 2 == 0 else fn, t) for i, (fn, t) in enumerate(fields)]
+            self.flavour[name] = ('getters', [i % 2 == 0 for i in range(n)])
+        elif flavour == 'derived' and depth < 3:
+            bases = [self.rand_struct(depth + 1) for _ in range(r.choice([1, 1, 2]))]
+            bases = [b for b in bases if self.flavour.get(b[1], ('plain',))[0] in ('plain',)]
+            if bases:
+                fields = [('', b) for b in bases] + fields
+                self.flavour[name] = ('derived', len(bases))
+        elif flavour == 'template' and n > 0:
+            params = ['T%d' % i for i in range(n)]
+            self.flavour[name + '<' + ','.join(params) + '>'] = ('template', name, params)
+            name = name + '<' + ','.join(params) + '>'
+        return ('S', name, fields)
 
     # ---- random values -----------------------------------------------------------------
     def rand_val(self, ty, depth=0):
@@ -165,8 +207,24 @@ class Gen:
                 kinds += ['vector_bool'] if elem['cxx'] == 'bool' else []
             if et[0] == 'A' and et[1] in INT_TAGS + 'c':
                 kinds += ['set', 'multiset']
+            if not deser:
+                kinds += ['array', 'carray' if top else 'fixedseq', 'array_view', 'sizedseq', 'nosizeseq']
+                if et == ('A', 'c'):
+                    kinds += ['cstr', 'cstr']
+                if et[0] == 'T' and len(et[1]) == 2 and et[1][0][0] == 'A' and et[1][0][1] in INT_TAGS and elem['cxx'].startswith('std::pair'):
+                    kinds += ['map', 'map', 'multimap']
             kind = r.choice(kinds)
             self.bump('seq-' + kind)
+            if kind in ('array', 'carray', 'fixedseq', 'array_view', 'sizedseq', 'nosizeseq', 'cstr', 'map', 'multimap'):
+                n = r.choice([0, 1, 2, 3, 5, 33, 40]) if kind in ('array', 'carray', 'fixedseq') else None
+                if kind in ('carray', 'fixedseq') and n == 0:
+                    n = 1
+                if moveonly(elem) and kind != 'array':
+                    kind, n = 'array', (n if n is not None else r.choice([0, 1, 2, 3]))
+                cxx = {'array': 'std::array<%s, %s>' % (e, n), 'carray': '%s[%s]' % (e, n), 'fixedseq': 'vr::FixedSeq<%s, %s>' % (e, n), 'array_view': 'binlog::ArrayView<%s>' % e,
+                       'sizedseq': 'vr::SizedSeq<%s>' % e, 'nosizeseq': 'vr::NoSizeSeq<%s>' % e, 'cstr': 'const char*',
+                       'map': 'std::map<%s>' % e[len('std::pair<'):-1], 'multimap': 'std::multimap<%s>' % e[len('std::pair<'):-1]}[kind]
+                return {'ty': ty, 'cxx': cxx, 'kind': 'seq', 'seqkind': kind, 'elem': elem, 'n': n}
             cxx = {'vector': 'std::vector<%s>', 'deque': 'std::deque<%s>', 'list': 'std::list<%s>',
                    'forward_list': 'std::forward_list<%s>', 'string': 'std::string', 'vector_bool': 'std::vector<bool>',
                    'set': 'std::set<%s>', 'multiset': 'std::multiset<%s>'}[kind]
@@ -203,23 +261,64 @@ class Gen:
             self.bump('variant')
             cxx = 'std::variant<%s>' % ', '.join('std::monostate' if x is None else x['cxx'] for x in rs)
             return {'ty': ty, 'cxx': cxx, 'kind': 'variant', 'alts': rs}
+        if k == 'S' and ty[1] in ADAPTER_NAMES or (k == 'S' and ty[1].startswith('std::chrono::duration<')):
+            if deser:
+                return None
+            return self.realise_adapter(ty)
         if k == 'S':
+            fl = self.flavour.get(ty[1], ('plain',))
+            if deser and fl[0] == 'getters':
+                return None
             # one C++ struct per Ty name (its name is part of the tag): members are realised once,
             # with deserializable kinds, and reused by every realisation of the enclosing type
             if ty[1] in self.struct_rt:
                 fields = self.struct_rt[ty[1]]
             else:
-                fields = [(n, self.realise(t, True)) for n, t in ty[2]]
+                fields = []
+                deserable = fl[0] != 'getters'
+                for n, t in ty[2]:
+                    f = self.realise(t, True)
+                    if f is None:
+                        f = self.realise(t, False)
+                        deserable = False
+                    fields.append((n, f))
                 self.struct_rt[ty[1]] = fields
+                self.struct_deser[ty[1]] = deserable
                 if not any(f is None for _, f in fields):
                     self.declare_struct(ty, fields)
             if any(f is None for _, f in fields):
                 return None
-            self.bump('struct')
-            return {'ty': ty, 'cxx': ty[1], 'kind': 'struct', 'fields': fields}
+            if deser and not self.struct_deser.get(ty[1], False):
+                return None
+            self.bump('struct-' + fl[0])
+            cxx = ty[1]
+            if fl[0] == 'template':
+                cxx = '%s<%s>' % (fl[1], ', '.join(f['cxx'] for _, f in fields))
+            return {'ty': ty, 'cxx': cxx, 'kind': 'struct', 'fields': fields, 'flavour': fl}
         if k == 'N':
             return None
         raise ValueError(ty)
+
+    def realise_adapter(self, ty):
+        r = self.rng
+        name = ty[1]
+        self.bump('adapter-' + name.split('<')[0])
+        if name == 'std::filesystem::path':
+            return {'ty': ty, 'cxx': 'std::filesystem::path', 'kind': 'adapter', 'adapter': 'path'}
+        if name == 'std::filesystem::directory_entry':
+            return {'ty': ty, 'cxx': 'std::filesystem::directory_entry', 'kind': 'adapter', 'adapter': 'dirent'}
+        if name.startswith('std::chrono::duration<'):
+            period = name[len('std::chrono::duration<Rep,'):-1]
+            rep = r.choice(ARITH[ty[2][0][1][1]][1])
+            return {'ty': ty, 'cxx': 'std::chrono::duration<%s, %s>' % (rep, period), 'kind': 'adapter', 'adapter': 'duration', 'rep': rep}
+        if name == 'std::chrono::system_clock::time_point':
+            dur = r.choice(['std::chrono::nanoseconds', 'std::chrono::microseconds', 'std::chrono::seconds'])
+            return {'ty': ty, 'cxx': 'std::chrono::time_point<std::chrono::system_clock, %s>' % dur, 'kind': 'adapter', 'adapter': 'time_point', 'dur': dur}
+        if name == 'binlog::address':
+            return {'ty': ty, 'cxx': r.choice(['binlog::address', 'void*', 'const void*']), 'kind': 'adapter', 'adapter': 'address'}
+        if name == 'std::error_code':
+            return {'ty': ty, 'cxx': 'std::error_code', 'kind': 'adapter', 'adapter': 'error_code'}
+        raise ValueError(name)
 
     def realise_fixed(self, ty, vals):
         """a deserializable destination for `ty` in which some sequence nodes are std::array<E, N>;
@@ -275,18 +374,64 @@ class Gen:
 
     def declare_struct(self, ty, fields):
         name = ty[1]
-        if any(d.startswith('struct %s ' % name) for d in self.decls):
+        fl = self.flavour.get(name, ('plain',))
+        cname = fl[1] if fl[0] == 'template' else name
+        if any(d.startswith('struct %s ' % cname) or d.startswith('template <') and ('struct %s ' % cname) in d for d in self.decls):
             return
-        # some members are exposed through getters (serialization-only is then required)
+        names = [n for n, _ in fields]
+        if fl[0] == 'getters':
+            # private members, read through getters where the tag says so; a constructor to build values
+            priv, pub, ctor_args, ctor_init = [], [], [], []
+            for (n, f), isg in zip(fields, fl[1]):
+                if isg:
+                    priv.append('%s m_%s;' % (f['cxx'], n))
+                    pub.append('const %s& %s() const { return m_%s; }' % (f['cxx'], n, n))
+                    ctor_init.append('m_%s(std::move(a_%s))' % (n, n))
+                else:
+                    pub.append('%s %s;' % (f['cxx'], n))
+                    ctor_init.append('%s(std::move(a_%s))' % (n, n))
+                ctor_args.append('%s a_%s' % (f['cxx'], n))
+            # members are initialised in declaration order: declare in field order regardless of access
+            body = []
+            for (n, f), isg in zip(fields, fl[1]):
+                body.append(('private: %s m_%s; public: const %s& %s() const { return m_%s; }' % (f['cxx'], n, f['cxx'], n, n)) if isg
+                            else ('public: %s %s;' % (f['cxx'], n)))
+            self.decls.append('struct %s { %s public: %s(%s) : %s {} };' % (name, ' '.join(body), name, ', '.join(ctor_args), ', '.join(ctor_init)))
+            args = ', '.join([name] + names)
+            self.decls.append('MSERIALIZE_MAKE_STRUCT_SERIALIZABLE(%s)' % args)
+            self.decls.append('MSERIALIZE_MAKE_STRUCT_TAG(%s)' % args)
+            return
+        if fl[0] == 'derived':
+            nb = fl[1]
+            bases = [f['cxx'] for _, f in fields[:nb]]
+            members = ['%s %s;' % (f['cxx'], n) for n, f in fields[nb:]]
+            self.decls.append('struct %s : %s { %s };' % (name, ', '.join(bases), ' '.join(members)))
+            args = ', '.join([name, '(' + ', '.join(bases) + ')'] + names[nb:])
+            self.decls.append('MSERIALIZE_MAKE_DERIVED_STRUCT_SERIALIZABLE(%s)' % args)
+            if self.struct_deser.get(name, False):
+                self.decls.append('MSERIALIZE_MAKE_DERIVED_STRUCT_DESERIALIZABLE(%s)' % args)
+            self.decls.append('MSERIALIZE_MAKE_DERIVED_STRUCT_TAG(%s)' % args)
+            return
+        if fl[0] == 'template':
+            params = fl[2]
+            members = ['%s %s;' % (p_, n) for p_, n in zip(params, names)]
+            tparams = '(' + ', '.join('typename ' + p_ for p_ in params) + ')'
+            tname = '(%s<%s>)' % (cname, ','.join(params))
+            self.decls.append('template <%s> struct %s { %s };' % (', '.join('typename ' + p_ for p_ in params), cname, ' '.join(members)))
+            args = ', '.join([tparams, tname] + names)
+            self.decls.append('MSERIALIZE_MAKE_TEMPLATE_SERIALIZABLE(%s)' % args)
+            if self.struct_deser.get(name, False):
+                self.decls.append('MSERIALIZE_MAKE_TEMPLATE_DESERIALIZABLE(%s)' % args)
+            self.decls.append('MSERIALIZE_MAKE_TEMPLATE_TAG(%s)' % args)
+            return
         members = []
-        names = []
         for n, f in fields:
             members.append('%s %s;' % (f['cxx'], n))
-            names.append(n)
         self.decls.append('struct %s { %s };' % (name, ' '.join(members)))
         args = ', '.join([name] + names)
         self.decls.append('MSERIALIZE_MAKE_STRUCT_SERIALIZABLE(%s)' % args)
-        self.decls.append('MSERIALIZE_MAKE_STRUCT_DESERIALIZABLE(%s)' % args)
+        if self.struct_deser.get(name, False):
+            self.decls.append('MSERIALIZE_MAKE_STRUCT_DESERIALIZABLE(%s)' % args)
         self.decls.append('MSERIALIZE_MAKE_STRUCT_TAG(%s)' % args)
 
     # ---- C++ value expressions ---------------------------------------------------------------
@@ -297,6 +442,46 @@ class Gen:
             return cxx_arith(ty[1], val[1], rt['cxx'])
         if k == 'enum':
             return 'static_cast<%s>(%s)' % (rt['cxx'], cxx_int(ty[1], val[1]))
+        if k == 'adapter':
+            a = rt['adapter']
+            if a == 'path':
+                return 'std::filesystem::path(std::string{%s})' % ', '.join(cxx_arith('c', c[1], 'char') for c in val[1][0][1])
+            if a == 'dirent':
+                return 'std::filesystem::directory_entry(std::filesystem::path(std::string{%s}))' % ', '.join(cxx_arith('c', c[1], 'char') for c in val[1][0][1][0][1])
+            if a == 'duration':
+                return '%s(%s)' % (rt['cxx'], cxx_arith(ty[2][0][1][1], val[1][0][1], rt['rep']))
+            if a == 'time_point':
+                return '%s(std::chrono::duration_cast<%s>(std::chrono::nanoseconds(%s)))' % (rt['cxx'], rt['dur'], cxx_int('l', val[1][0][1]))
+            if a == 'address':
+                if rt['cxx'] == 'binlog::address':
+                    return 'binlog::address(reinterpret_cast<const void*>(std::uintptr_t(%dULL)))' % val[1][0][1]
+                return 'reinterpret_cast<%s>(std::uintptr_t(%dULL))' % (rt['cxx'], val[1][0][1])
+            if a == 'error_code':
+                return 'std::error_code(%d, std::generic_category())' % errno_of_message(bytes(c[1] for c in val[1][0][1]))
+            raise ValueError(a)
+        if k == 'seq' and rt['seqkind'] in ('array', 'carray', 'fixedseq', 'array_view', 'sizedseq', 'nosizeseq', 'cstr', 'map', 'multimap'):
+            elems = [self.cxx_value(rt['elem'], v, statics) for v in val[1]]
+            sk = rt['seqkind']
+            e = rt['elem']['cxx']
+            if sk == 'array':
+                return '%s{{%s}}' % (rt['cxx'], ', '.join(elems)) if elems else '%s{}' % rt['cxx']
+            if sk == 'carray':
+                return '{%s}' % ', '.join(elems)
+            if sk == 'fixedseq':
+                return '%s{{%s}}' % (rt['cxx'], ', '.join(elems))
+            if sk in ('sizedseq', 'nosizeseq'):
+                return '%s{{%s}}' % (rt['cxx'], ', '.join(elems)) if elems else '%s{}' % rt['cxx']
+            if sk == 'array_view':
+                name = 'vr_static_%d' % len(statics)
+                statics.append('static const %s %s[%d] = {%s};' % (e, name, max(1, len(elems)), ', '.join(elems)))
+                return 'binlog::array_view(%s, %d)' % (name, len(elems))
+            if sk == 'cstr':
+                if val == NULL_CSTR_VAL:
+                    return 'static_cast<const char*>(nullptr)'
+                name = 'vr_static_%d' % len(statics)
+                statics.append('static const char %s[] = {%s};' % (name, ', '.join(elems + ["'\\0'"])))
+                return 'static_cast<const char*>(%s)' % name
+            return '%s{%s}' % (rt['cxx'], ', '.join(elems))
         if k == 'seq':
             elems = [self.cxx_value(rt['elem'], v, statics) for v in val[1]]
             if rt['seqkind'] == 'string':
@@ -334,13 +519,33 @@ class Gen:
             return '%s{std::in_place_index<%d>, %s}' % (rt['cxx'], i, self.cxx_value(alt, val[2], statics))
         if k == 'struct':
             elems = [self.cxx_value(f, v, statics) for (_, f), v in zip(rt['fields'], val[1])]
+            if rt.get('flavour', ('plain',))[0] == 'getters':
+                return '%s(%s)' % (rt['cxx'], ', '.join(elems))
             return '%s{%s}' % (rt['cxx'], ', '.join(elems))
         raise ValueError(k)
 
 
+NULL_CSTR_VAL = ('q', [('n', c) for c in b'{null}'])
+ERRNO_MESSAGES = None
+
+
+def errno_messages():
+    global ERRNO_MESSAGES
+    if ERRNO_MESSAGES is None:
+        import os
+        ERRNO_MESSAGES = {}
+        for n in (0, 1, 2, 5, 9, 11, 12, 13, 17, 22, 28, 32, 110, 111):
+            ERRNO_MESSAGES.setdefault(os.strerror(n).encode(), n)
+    return ERRNO_MESSAGES
+
+
+def errno_of_message(msg):
+    return errno_messages()[msg]
+
+
 def moveonly(rt):
     k = rt['kind']
-    if k in ('arith', 'enum'):
+    if k in ('arith', 'enum', 'adapter'):
         return False
     if k == 'seq':
         return moveonly(rt['elem'])
@@ -430,8 +635,35 @@ def canon_value_for(rt, val):
     """sets/multisets must be given sorted (and unique for set): canonicalise the value to what the
     container will hold, so that the model and the program talk about the same value"""
     k = rt['kind']
+    if k == 'adapter':
+        return canon_adapter_value(rt, val)
     if k == 'seq':
         elems = [canon_value_for(rt['elem'], v) for v in val[1]]
+        sk = rt['seqkind']
+        if sk in ('array', 'carray', 'fixedseq'):
+            # fixed size: pad by repeating / cut (an empty value of a non-empty array gets value-initialised elements)
+            n = rt['n']
+            while len(elems) < n:
+                elems.append(elems[len(elems) % max(1, len(elems))] if elems and not moveonly(rt['elem']) else canon_value_for(rt['elem'], zero_value(rt['elem']['ty'])))
+            elems = elems[:n]
+            return ('q', elems)
+        if sk == 'cstr':
+            elems = [e for e in elems if e[1] != 0]
+            if not elems and len(val[1]) > 2:
+                return NULL_CSTR_VAL          # a null `const char*` is logged as "{null}"
+            return ('q', elems)
+        if sk in ('map', 'multimap'):
+            c = rt['ty'][1][1][0][1]
+            size = ARITH[c][0]
+            def mkey(e):
+                raw = e[1][0][1]
+                return raw - (1 << (8 * size)) if (c in SIGNED and raw >= 1 << (8 * size - 1)) else raw
+            out = []
+            for e in elems:      # std::map keeps the FIRST value of a key (initializer-list insertion), multimap keeps all, stable
+                if sk == 'map' and any(mkey(x) == mkey(e) for x in out):
+                    continue
+                out.append(e)
+            return ('q', sorted(out, key=mkey))
         if rt['seqkind'] in ('set', 'multiset'):
             c = rt['ty'][1][1]
             size = ARITH[c][0]
@@ -458,15 +690,77 @@ def canon_value_for(rt, val):
     return val
 
 
+def zero_value(ty):
+    k = ty[0]
+    if k in ('A', 'E'): return ('n', 0)
+    if k == 'Q': return ('q', [])
+    if k == 'T': return ('t', [zero_value(t) for t in ty[1]])
+    if k == 'S': return ('t', [zero_value(t) for _, t in ty[2]])
+    if k == 'V': return ('a', 0, zero_value(ty[1][0]))
+    return ('z',)
+
+
+PATH_CHARS = b'/ab._-x/ /'
+
+
+def canon_adapter_value(rt, val):
+    """values an adapter type can actually hold, derived deterministically from the random value"""
+    a = rt['adapter']
+    if a in ('path', 'dirent'):
+        inner = val[1][0] if a == 'path' else val[1][0][1][0]
+        raw = [c[1] for c in inner[1]]
+        # no NUL; biased to separators incl. consecutive ones (native spelling must be kept verbatim)
+        chars = [PATH_CHARS[x % len(PATH_CHARS)] for x in raw]
+        if len(chars) >= 3 and raw[0] % 3 == 0:
+            chars[1] = chars[2] = ord('/')
+        pv = ('t', [('q', [('n', c) for c in chars])])
+        return pv if a == 'path' else ('t', [pv])
+    if a == 'duration':
+        return val
+    if a == 'time_point':
+        ns = val[1][0][1]
+        sns = ns - (1 << 64) if ns >= 1 << 63 else ns
+        div = {'std::chrono::nanoseconds': 1, 'std::chrono::microseconds': 1000, 'std::chrono::seconds': 10 ** 9}[rt['dur']]
+        # the time point holds its own duration type: what is logged is that duration converted back to ns (truncation toward zero)
+        q = abs(sns) // div * (1 if sns >= 0 else -1)
+        sns = q * div
+        if not (-(1 << 63) <= sns < (1 << 63)):
+            sns = 0
+        return ('t', [('n', sns & ((1 << 64) - 1))])
+    if a == 'address':
+        return val
+    if a == 'error_code':
+        msgs = sorted(errno_messages().keys())
+        raw = [c[1] for c in val[1][0][1]]
+        m = msgs[(sum(raw) + len(raw)) % len(msgs)]
+        return ('t', [('q', [('n', c) for c in m])])
+    raise ValueError(a)
+
+
 PROLOGUE = r'''
 #include "mser_report.hpp"
 #include <mserialize/make_struct_serializable.hpp>
 #include <mserialize/make_struct_deserializable.hpp>
 #include <mserialize/make_struct_tag.hpp>
 #include <mserialize/make_enum_tag.hpp>
+#include <mserialize/make_derived_struct_serializable.hpp>
+#include <mserialize/make_derived_struct_deserializable.hpp>
+#include <mserialize/make_derived_struct_tag.hpp>
+#include <mserialize/make_template_serializable.hpp>
+#include <mserialize/make_template_deserializable.hpp>
+#include <mserialize/make_template_tag.hpp>
 #include <binlog/adapt_stdvariant.hpp>
 #include <binlog/adapt_stdoptional.hpp>
+#include <binlog/adapt_stdduration.hpp>
+#include <binlog/adapt_stdtimepoint.hpp>
+#include <binlog/adapt_stderrorcode.hpp>
+#include <binlog/adapt_stdfilesystem.hpp>
+#include <binlog/Address.hpp>
+#include <binlog/ArrayView.hpp>
 #include <array>
+#include <chrono>
+#include <filesystem>
+#include <system_error>
 #include <iterator>
 #include <deque>
 #include <forward_list>
@@ -481,6 +775,14 @@ PROLOGUE = r'''
 #include <utility>
 #include <variant>
 #include <vector>
+
+namespace vr {
+// a fixed-size user container
+template <typename T, std::size_t N> struct FixedSeq { T a[N]; const T* begin() const { return a; } const T* end() const { return a + N; } std::size_t size() const { return N; } };
+// user containers: with size() (a sized, non-contiguous range) and without (size by std::distance)
+template <typename T> struct SizedSeq { std::deque<T> d; auto begin() const { return d.begin(); } auto end() const { return d.end(); } std::size_t size() const { return d.size(); } };
+template <typename T> struct NoSizeSeq { std::forward_list<T> d; auto begin() const { return d.begin(); } auto end() const { return d.end(); } };
+}
 
 template <typename C, typename... E>
 C vr_make(E&&... e)
@@ -503,7 +805,7 @@ def make_program(rng, prefix, ncases):
         ty = g.rand_ty()
         while ty[0] == 'N':
             ty = g.rand_ty()
-        rt = g.realise(ty)
+        rt = g.realise(ty, top=True)
         val = canon_value_for(rt, g.rand_val(ty))
         statics = []
         expr = g.cxx_value(rt, val, statics)
